@@ -283,6 +283,8 @@ def execute(plan):
                         nte_arg = int(NtE[0])
                     elif ext and sd_ % 3 == 0:
                         nte_arg = [int(x) for x in NtE]
+                    elif ext and sd_ % 3 == 1:
+                        nte_arg = tuple(int(x) for x in NtE)          # "if NtE is an iterable ..."
                     if kind == "randomize":
                         ch.set_channel_seed(op["seed"])
                         same = len(set(op["Nr"])) == 1 and len(set(op["Nt"])) == 1 and op["seed"] % 2 == 0
@@ -423,8 +425,8 @@ def execute(plan):
                             viol("noise", step, "the rejected noise variance %r changed noise_var to %r" % (op["v"], ch.noise_var))
                             break
                     else:
-                        ch.noise_var = op["v"]
-                        m.noise_var = op["v"]
+                        ch.noise_var = np.float32(op["v"]) if (op["v"] is not None and step % 3 == 0) else op["v"]
+                        m.noise_var = None if op["v"] is None else float(np.float32(op["v"]) if step % 3 == 0 else op["v"])
                 elif kind == "post_filter":
                     if m.raw is None:
                         continue
